@@ -56,11 +56,32 @@ impl LspProject {
                     .collect());
             }
 
-            return Ok(result
+            let mut tokens: Vec<SemanticToken> = result
                 .0
                 .into_iter()
                 .filter_map(|tok| LspTokenType(tok).into())
-                .collect());
+                .collect();
+
+            // The language server protocol encodes the position of each token
+            // relative to the previous token: the line as the difference to the
+            // previous line and the start as the difference to the previous start
+            // when both are on the same line.
+            let mut previous_line = 0;
+            let mut previous_start = 0;
+            for token in tokens.iter_mut() {
+                let line = token.delta_line;
+                let start = token.delta_start;
+                token.delta_line = line.saturating_sub(previous_line);
+                token.delta_start = if line == previous_line {
+                    start.saturating_sub(previous_start)
+                } else {
+                    start
+                };
+                previous_line = line;
+                previous_start = start;
+            }
+
+            return Ok(tokens);
         } else {
             error!("URL must be convertible to a file path {}", url);
         }
